@@ -309,6 +309,32 @@ def r7_deepcopy(ctx, rid="C11.R7"):
     raise AnalysisError(rid, "anchor vanished: self.algo_parameters = ... in BaseAlgorithm.__init__")
 
 
+def r13_log_folders_created(ctx):
+    """'Turning logging on never aborts the run': every folder the output manager writes into (convergence files, plots, patient plots) is
+    created when the outputs are configured - unconditionally, since each kind of output has its own, independent periodicity."""
+    ctx.rule("C11.R13", "every log folder handed to the output manager is created unconditionally by OutputsSettings", 3)
+    f = ctx.ix.func("leaspy.algo.settings", "OutputsSettings._check_needed_folders_are_empty_or_create_them", "C11.R13")
+    cfg = CFG(f.node)
+    paths = {U(t).split(".", 1)[1] for st in statements(f.node) if isinstance(st, ast.Assign) for t in st.targets if U(t).startswith("self.") and U(t).endswith("_path") and U(t) != "self.root_path"}
+    created = {}
+    for n, st in cfg.stmt.items():
+        if st is None:
+            continue
+        for c in header_walk(st):
+            if isinstance(c, ast.Call) and isinstance(c.func, ast.Attribute) and c.func.attr == "_check_folder_is_empty_or_create_it" and c.args and U(c.args[0]).startswith("self."):
+                created[U(c.args[0]).split(".", 1)[1]] = (n, c)
+    fom = ctx.ix.func("leaspy.algo.fit.fit_output_manager", "FitOutputManager.__init__", "C11.R13")
+    used = {x.attr for x in ast.walk(fom.node) if isinstance(x, ast.Attribute) and U(x.value) == "outputs" and x.attr.endswith("_path") and x.attr != "root_path"}
+    for pth in sorted(used | paths):
+        if pth not in created:
+            ctx.violation("C11.R13", f, f.node, f"the folder `{pth}` used by the output manager is never created: the first file written into it aborts the run", construct=f"folder {pth}")
+            continue
+        n, c = created[pth]
+        guards = [(U(cfg.stmt[h].test), lab) for h, lab in cfg.if_guards(n)]
+        ctx.check(not guards, "C11.R13", f, c, f"`{pth}` created unconditionally", f"the folder `{pth}` is only created when `{guards[0][0][:70] if guards else ''}`: a run that logs into it under another combination "
+                  "of periodicities aborts with FileNotFoundError at the first write", construct=f"folder {pth}")
+
+
 def r10_no_bare_squeeze_in_logging(ctx):
     """'Turning logging on never aborts the run': the logging code plots / writes arrays whose shapes depend on the data (one visit, one
     feature, one source ...).  `x.squeeze()` without a dimension drops EVERY singleton axis, so an individual with a single visit or a
@@ -338,6 +364,7 @@ def rules(ctx):
     r6_history(ctx, cg)
     r7_deepcopy(ctx)
     r10_no_bare_squeeze_in_logging(ctx)
+    r13_log_folders_created(ctx)
     # 'whatever was fitted earlier in the process': what a run leaves behind must not seed the next one. Same structural rules as
     # C13.R1 (a model never keeps the individual latent values / data of a run: the next run would start from them instead of from
     # seeded draws) and C13.R5 (nothing is written through process-wide containers), decided on the same code.
